@@ -299,25 +299,27 @@ where
     /// Do not call this function within a select branch or in any context where it may be prematurely canceled.
     pub async fn tx(&mut self) -> Result<(), RadioError> {
         if let RadioMode::Transmit = self.radio_mode {
-            self.radio_kind.do_tx().await?;
-            loop {
-                self.wait_for_irq().await?;
-                match self.radio_kind.process_irq_event(self.radio_mode, None, true).await {
-                    Ok(Some(IrqState::Done | IrqState::PreambleReceived)) => {
-                        self.radio_mode = RadioMode::Standby;
-                        return Ok(());
-                    }
-                    Ok(None) => continue,
-                    Err(err) => {
-                        self.radio_kind.ensure_ready(self.radio_mode).await?;
-                        self.radio_kind.set_standby().await?;
-                        self.radio_mode = RadioMode::Standby;
-                        return Err(err);
-                    }
+            match self.tx_until_done().await {
+                Ok(()) => {
+                    self.radio_mode = RadioMode::Standby;
+                    Ok(())
                 }
+                Err(err) => self.fail_to_standby(err).await,
             }
         } else {
             Err(RadioError::InvalidRadioMode)
+        }
+    }
+
+    // Start the prepared transmission and wait for its completion interrupt
+    async fn tx_until_done(&mut self) -> Result<(), RadioError> {
+        self.radio_kind.do_tx().await?;
+        loop {
+            self.wait_for_irq().await?;
+            match self.radio_kind.process_irq_event(self.radio_mode, None, true).await? {
+                Some(IrqState::Done | IrqState::PreambleReceived) => return Ok(()),
+                None => continue,
+            }
         }
     }
 
@@ -362,7 +364,10 @@ where
     /// Call [`LoRa::complete_rx`] to wait and handle result.
     pub async fn start_rx(&mut self) -> Result<(), RadioError> {
         if let RadioMode::Receive(listen_mode) = self.radio_mode {
-            self.radio_kind.do_rx(listen_mode).await
+            match self.radio_kind.do_rx(listen_mode).await {
+                Ok(()) => Ok(()),
+                Err(err) => self.fail_to_standby(err).await,
+            }
         } else {
             Err(RadioError::InvalidRadioMode)
         }
@@ -379,7 +384,7 @@ where
         receiving_buffer: &mut [u8],
     ) -> Result<(u8, PacketStatus), RadioError> {
         if let RadioMode::Receive(_) = self.radio_mode {
-            loop {
+            let err = loop {
                 match self.radio_kind.process_irq_event(self.radio_mode, None, true).await {
                     Ok(Some(actual_state)) => match actual_state {
                         IrqState::PreambleReceived => (),
@@ -390,18 +395,17 @@ where
                         }
                     },
                     Ok(None) => (),
-                    Err(err) => {
-                        // if in rx continuous mode, allow the caller to determine whether to keep receiving
-                        if self.radio_mode != RadioMode::Receive(RxMode::Continuous) {
-                            self.radio_kind.ensure_ready(self.radio_mode).await?;
-                            self.radio_kind.set_standby().await?;
-                            self.radio_mode = RadioMode::Standby;
-                        }
-                        return Err(err);
-                    }
+                    Err(err) => break err,
                 }
-                self.wait_for_irq().await?;
+                if let Err(err) = self.wait_for_irq().await {
+                    break err;
+                }
+            };
+            // if in rx continuous mode, allow the caller to determine whether to keep receiving
+            if self.radio_mode != RadioMode::Receive(RxMode::Continuous) {
+                return self.fail_to_standby(err).await;
             }
+            Err(err)
         } else {
             Err(RadioError::InvalidRadioMode)
         }
@@ -488,34 +492,35 @@ where
     /// Do not call this function within a select branch or in any context where it may be prematurely canceled.
     pub async fn cad(&mut self, mdltn_params: &ModulationParams) -> Result<bool, RadioError> {
         if self.radio_mode == RadioMode::ChannelActivityDetection {
-            self.radio_kind.do_cad(mdltn_params).await?;
-            let mut cad_activity_detected = false;
-            loop {
-                self.wait_for_irq().await?;
-                match self
-                    .radio_kind
-                    .process_irq_event(self.radio_mode, Some(&mut cad_activity_detected), true)
-                    .await
-                {
-                    Ok(Some(IrqState::Done)) => {
-                        // CAD_ONLY exit returns the chip to STDBY_RC on its own; sync
-                        // radio_mode so the next operation starts from a known state.
-                        self.radio_kind.set_standby().await?;
-                        self.radio_mode = RadioMode::Standby;
-                        return Ok(cad_activity_detected);
-                    }
-                    Err(err) => {
-                        self.radio_kind.ensure_ready(self.radio_mode).await?;
-                        self.radio_kind.set_standby().await?;
-                        self.radio_mode = RadioMode::Standby;
-                        return Err(err);
-                    }
-                    // the interrupt line fired without CadDone: keep waiting, as tx() does
-                    Ok(_) => continue,
+            match self.cad_until_done(mdltn_params).await {
+                Ok(cad_activity_detected) => {
+                    // CAD_ONLY exit returns the chip to STDBY_RC on its own; sync
+                    // radio_mode so the next operation starts from a known state.
+                    self.radio_kind.set_standby().await?;
+                    self.radio_mode = RadioMode::Standby;
+                    Ok(cad_activity_detected)
                 }
+                Err(err) => self.fail_to_standby(err).await,
             }
         } else {
             Err(RadioError::InvalidRadioMode)
+        }
+    }
+
+    // Start the prepared CAD and wait for its completion interrupt
+    async fn cad_until_done(&mut self, mdltn_params: &ModulationParams) -> Result<bool, RadioError> {
+        self.radio_kind.do_cad(mdltn_params).await?;
+        let mut cad_activity_detected = false;
+        loop {
+            self.wait_for_irq().await?;
+            // the interrupt line may fire without CadDone: keep waiting, as tx() does
+            if let Some(IrqState::Done) = self
+                .radio_kind
+                .process_irq_event(self.radio_mode, Some(&mut cad_activity_detected), true)
+                .await?
+            {
+                return Ok(cad_activity_detected);
+            }
         }
     }
 
@@ -549,6 +554,15 @@ where
         self.radio_mode = RadioMode::Transmit;
         self.radio_kind.set_irq_params(Some(self.radio_mode)).await?;
         self.radio_kind.set_tx_continuous_wave_mode().await
+    }
+
+    // A transmit, receive or CAD operation failed to start or to complete: do not leave the
+    // chip in an active mode behind the caller's back
+    async fn fail_to_standby<T>(&mut self, err: RadioError) -> Result<T, RadioError> {
+        self.radio_kind.ensure_ready(self.radio_mode).await?;
+        self.radio_kind.set_standby().await?;
+        self.radio_mode = RadioMode::Standby;
+        Err(err)
     }
 
     async fn prepare_modem(&mut self, frequency_in_hz: u32) -> Result<(), RadioError> {
